@@ -232,7 +232,8 @@ def run_case(case, ctx):
             ctx.fail("zero_rhs_gives_zero", "value", err=float(X64[..., 0].abs().max()), **kw)
         else:
             ctx.ok("zero_rhs_gives_zero", kb)
-    if not warned and iters and not scaled:
+    # (also when the solver did not iterate at all: "already solved" must be true of EVERY column then)
+    if not warned and not scaled:
         R = A64 @ X64 - B64
         rel = R.norm(dim=-2) / bn.clamp_min(1e-300)
         rel = torch.where(bn < 1e-10, torch.zeros_like(rel), rel)
